@@ -48,11 +48,16 @@ package table
 //@   requires 0 <= i && i < len(c.rows) && 0 <= j && j < len(c.rows) && (c.cfg == nil || len(c.cfg) >= 1) && sortableRows(c.rows, c.cfg)
 //@   ensures result == call("rowLess", c.rows[i], c.rows[j], c.cfg)
 
+// strictWeakOrder: rowLess under configuration c is a strict weak order on the rows (irreflexive,
+// transitive, incomparability transitive). sort.Sort promises an ordered result only for such a
+// comparison.
+//@ spec macro strictWeakOrder(rows []Row, c SortConfig) Bool = (forall a int :: 0 <= a && a < len(rows) ==> !call("rowLess", rows[a], rows[a], c)) && (forall a int, b int, d int :: 0 <= a && a < len(rows) && 0 <= b && b < len(rows) && 0 <= d && d < len(rows) && call("rowLess", rows[a], rows[b], c) && call("rowLess", rows[b], rows[d], c) ==> call("rowLess", rows[a], rows[d], c)) && (forall a int, b int, d int :: 0 <= a && a < len(rows) && 0 <= b && b < len(rows) && 0 <= d && d < len(rows) && !call("rowLess", rows[a], rows[b], c) && !call("rowLess", rows[b], rows[a], c) && !call("rowLess", rows[b], rows[d], c) && !call("rowLess", rows[d], rows[b], c) ==> !call("rowLess", rows[a], rows[d], c) && !call("rowLess", rows[d], rows[a], c))
+
 //@ func (t *Table) unsafeSort
 //@   requires t != nil && (cfg == nil || len(cfg) >= 1) && sortableRows(t.Data, cfg)
 //@   modifies t.Data
 //@   ensures[permutation] perm(old(t.Data), t.Data)
-//@   ensures[sorted] cfg != nil ==> sortedBy(t.Data, cfg)
+//@   ensures[sorted] cfg != nil && old(strictWeakOrder(t.Data, cfg)) ==> sortedBy(t.Data, cfg)
 //@   ensures[nil-config] cfg == nil ==> t.Data == old(t.Data)
 
 //@ func (t *Table) Sort
@@ -60,7 +65,7 @@ package table
 //@   modifies t.Data, t.#lock_mu
 //@   ensures[lock] t.#lock_mu == 0
 //@   ensures[permutation] perm(old(t.Data), t.Data)
-//@   ensures[sorted] cfg != nil ==> sortedBy(t.Data, cfg)
+//@   ensures[sorted] cfg != nil && old(strictWeakOrder(t.Data, cfg)) ==> sortedBy(t.Data, cfg)
 
 // ---- Rows and joins (C10, C03) -------------------------------------------------------------
 
@@ -226,7 +231,7 @@ package table
 //@   ensures[nil-table] t2 == nil ==> result == nil && t.Data == old(t.Data) && t.mbs == old(t.mbs)
 //@   ensures[error-leaves-table] result != nil ==> t.Data == old(t.Data) && t.mbs == old(t.mbs) && t.AvailableBindings == old(t.AvailableBindings)
 //@   ensures[empty-target-accepts] t2 != nil && old(len(t.AvailableBindings)) == 0 ==> result == nil && t.mbs == t2.mbs && t.AvailableBindings == t2.AvailableBindings
-//@   ensures[appended] t2 != nil && result == nil ==> len(t.Data) == old(len(t.Data)) + len(t2.Data) && (forall j int :: {t.Data[j]} 0 <= j && j < old(len(t.Data)) ==> t.Data[j] == old(t.Data[j])) && (forall j int :: {t2.Data[j]} 0 <= j && j < len(t2.Data) ==> t.Data[old(len(t.Data)) + j] == t2.Data[j])
+//@   ensures[appended] t2 != nil && result == nil ==> len(t.Data) == old(len(t.Data)) + old(len(t2.Data)) && (forall j int :: {t.Data[j]} 0 <= j && j < old(len(t.Data)) ==> t.Data[j] == old(t.Data[j])) && (forall j int :: {old(t2.Data[j])} 0 <= j && j < old(len(t2.Data)) ==> t.Data[old(len(t.Data)) + j] == old(t2.Data[j]))
 
 //@ func (t *Table) unsafeAddBindings
 //@   opt terminates
